@@ -21,12 +21,13 @@ pub fn big(v: i128) -> Value {
 }
 
 pub fn unbig(v: &Value) -> i128 {
+    // accumulated as a negative number, so that the whole i128 range - i128::MIN included - decodes
     let s = v["s"].as_i64().expect("big.s") as i128;
     let mut m: i128 = 0;
     for x in v["l"].as_array().expect("big.l").iter().rev() {
-        m = m.checked_mul(10000).and_then(|v| v.checked_add(x.as_i64().unwrap() as i128)).expect("HARNESS big does not fit i128");
+        m = m.checked_mul(10000).and_then(|v| v.checked_sub(x.as_i64().unwrap() as i128)).expect("HARNESS big does not fit i128");
     }
-    s * m
+    if s < 0 { m } else if s > 0 { m.checked_neg().expect("HARNESS big does not fit i128") } else { 0 }
 }
 
 /// exact integer value of an integral f64 as big; non-integral flagged
